@@ -451,4 +451,42 @@ theorem erases_body_banReason_bin :
 
 end bodies
 
+/-! ### segment responses (`SegmentResponse<T>`, `OutputSegmentResponse`) -/
+
+def toSegmentResponse (p : Bytes × GV.Dec.Segment α) : GV.SerMsg.SegmentResponse α :=
+  { blockHash := p.1, segment := toSegment p.2 }
+
+theorem erases_rSegmentResponse (rd : Rdr) {p : Dec α} {q : Parser α} (h : Erases p q) (sz : Nat) (hsz : sz ≤ 2^40) :
+    Erases (fun bs => (rSegmentResponse rd p sz bs).map toSegmentResponse) (GV.SerMsg.decSegmentResponse q) := by
+  refine Erases.of_eq
+    (p' := fun bs => Dec.bind (rHash rd bs) fun hh r =>
+      Dec.bind ((segment rd p sz r).map toSegment) fun s r =>
+        .ok ({ blockHash := hh, segment := s } : GV.SerMsg.SegmentResponse α) r 0)
+    (q' := GV.SerMsg.decSegmentResponse q) ?_ (fun _ => rfl) ?_
+  · intro bs
+    unfold rSegmentResponse
+    simp only [map_bind]
+    congr 1; funext hh r
+    cases segment rd p sz r <;> rfl
+  · unfold GV.SerMsg.decSegmentResponse
+    exact Erases.bind (erases_rHash rd) fun hh => Erases.bind (erases_segment rd h sz hsz) fun s => erases_pure _
+
+def toOutputSegmentResponse (p : Bytes × GV.Dec.Segment OutputId × Bytes) : GV.SerMsg.OutputSegmentResponse :=
+  { response := { blockHash := p.1, segment := toSegment p.2.1 }, outputBitmapRoot := p.2.2 }
+
+theorem erases_rOutputSegmentResponse (rd : Rdr) :
+    Erases (fun bs => (rOutputSegmentResponse rd bs).map toOutputSegmentResponse) GV.SerMsg.decOutputSegmentResponse := by
+  refine Erases.of_eq
+    (p' := fun bs => Dec.bind ((rSegmentResponse rd (rOutputId rd) OUTPUT_ID_MEM bs).map toSegmentResponse) fun resp r =>
+      Dec.bind (rHash rd r) fun root r =>
+        .ok ({ response := resp, outputBitmapRoot := root } : GV.SerMsg.OutputSegmentResponse) r 0)
+    (q' := GV.SerMsg.decOutputSegmentResponse) ?_ (fun _ => rfl) ?_
+  · intro bs
+    unfold rOutputSegmentResponse
+    simp only [map_bind]
+    cases rSegmentResponse rd (rOutputId rd) OUTPUT_ID_MEM bs <;> rfl
+  · unfold GV.SerMsg.decOutputSegmentResponse
+    exact Erases.bind (erases_rSegmentResponse rd (erases_rOutputId rd) _ (by unfold OUTPUT_ID_MEM; omega)) fun resp =>
+      Erases.bind (erases_rHash rd) fun root => erases_pure _
+
 end GV.DecSer
